@@ -62,8 +62,19 @@ def main():
         sys.stdout.flush()
         if not caught:
             bad += 1
-    with open(os.path.join(VERIF, "seeded", "RECHECK.json"), "w") as f:
-        json.dump({"tier": tier, "repo_head": sh("git -C /repo rev-parse --short HEAD")[1].strip(), "results": out}, f, indent=1, sort_keys=True)
+    path = os.path.join(VERIF, "seeded", "RECHECK.json")
+    merged = {}
+    if os.path.exists(path):        # (partial runs accumulate)
+        try:
+            merged = json.load(open(path)).get("results", {})
+        except ValueError:
+            merged = {}
+    head = sh("git -C /repo rev-parse --short HEAD")[1].strip()
+    for n, r in out.items():
+        r["repo_head"] = head
+        merged[n] = r
+    with open(path, "w") as f:
+        json.dump({"tier": tier, "results": merged}, f, indent=1, sort_keys=True)
     print("%d seeds, %d not caught" % (len(names), bad))
     return 1 if bad else 0
 
